@@ -125,6 +125,15 @@ func (m *kvm) apply(op string) bool {
 		for i := 0; i < 40; i++ {
 			m.simple[fmt.Sprintf("i%02d", i)] = fmt.Sprintf("w%02d", i)
 		}
+	case "I250": // one import of 250 keys / one removal of the same 250 keys: all or nothing
+		for i := 0; i < 250; i++ {
+			m.simple[fmt.Sprintf("b%03d", i)] = fmt.Sprintf("w%03d", i)
+		}
+	case "K250":
+		for i := 0; i < 250; i++ {
+			delete(m.simple, fmt.Sprintf("b%03d", i))
+			delete(m.children, fmt.Sprintf("b%03d", i))
+		}
 	}
 	return true
 }
